@@ -100,7 +100,7 @@ def step (s : St) : List String → St × String
       | (it', .panic) => ({ s with hits := s.hits.set! k it' }, "panic")
       | (it', .done) => ({ s with hits := s.hits.set! k it' }, "end")
       | (it', .item (some x)) => ({ s with hits := s.hits.set! k it' }, showPair x)
-      | (it', .item none) => ({ s with hits := s.hits.set! k it' }, "zero")
+      | (it', .item none) => ({ s with hits := s.hits.set! k it' }, "0:0")  -- Go reads the zeroed slot
   -- xheap.PriorityQueue
   | ["qnew", ord, ctor, items] =>
     let less := mkLessQ ord ctor
@@ -135,7 +135,7 @@ def step (s : St) : List String → St × String
       | (it', .panic) => ({ s with qits := s.qits.set! k it' }, "panic")
       | (it', .done) => ({ s with qits := s.qits.set! k it' }, "end")
       | (it', .item (some x)) => ({ s with qits := s.qits.set! k it' }, toString x)
-      | (it', .item none) => ({ s with qits := s.qits.set! k it' }, "zero")
+      | (it', .item none) => ({ s with qits := s.qits.set! k it' }, "0")
   | ["save"] => ({ s with sh := s.h, sq := s.q }, "ok")
   | ["restore"] => ({ s with h := s.sh, q := s.sq, hits := #[], qits := #[] }, "ok")
   | _ => (s, "bad-op")
